@@ -51,6 +51,8 @@ def check(run, project):
         raise AnalysisError("C11: obj_to_events not found")
     from .shared import unbound_locals
     unbound_locals(run, project, "A8", (OBJECT,), what="the conversion fails instead of rebuilding the object")
+    from .shared import undefined_names
+    undefined_names(run, project, "A8", (OBJECT,), what="the conversion fails instead of rebuilding the object")
     # ---- A1 / A2 / A3 (path summaries of obj_to_events)
     got, prefix = a123(run, mod, o2e, L)
     skip = skippable_fields(roles, L)
